@@ -37,5 +37,6 @@ extern "C" {
 uintptr_t slabh_map(size_t len, size_t align);
 void slabh_unmap(uintptr_t base, size_t len);
 void slabh_poison(int kind, void *p, size_t n); // 0 poison, 1 unpoison, 2 unpoison_expand
+int slabh_trace(const void *buf, size_t n);     // (nullptr, 0): is tracing on in this run?  otherwise: one trace record
 extern const SlabApi slab_api_sim, slab_api_ticket, slab_api_simple;
 }
